@@ -5,7 +5,10 @@ use errno::{errno, Errno};
 use std::ffi::{c_void, CStr};
 use std::mem::size_of;
 use std::ptr;
+#[cfg(not(feature = "verif-hooks"))]
 use std::sync::atomic;
+#[cfg(feature = "verif-hooks")]
+use crate::verif::atomic;
 
 use crate::shm_header::ShmHeader;
 use crate::{syserror, ClockErrorBound, ShmError};
@@ -90,6 +93,11 @@ impl MmapGuard {
 impl Drop for MmapGuard {
     /// Drop the MmapGuard and unmap the file it tracks.
     fn drop(&mut self) {
+        // A null guard tracks memory owned by a verification harness, nothing to unmap.
+        #[cfg(feature = "verif-hooks")]
+        if self.segment.is_null() {
+            return;
+        }
         // SAFETY: `segment` was previously returned from `mmap`, and therefore
         // when this destructor runs there are no more live references into
         // it.
@@ -137,7 +145,10 @@ pub struct ShmReader {
     // A raw pointer into the shared memory segment, pointing to the ClockErrorBound section. Note
     // that the structured reference by this pointer may not be consistent, and reading it requires
     // to assert the generation value.
+    #[cfg(not(feature = "verif-hooks"))]
     ceb_shm: *const ClockErrorBound,
+    #[cfg(feature = "verif-hooks")]
+    ceb_shm: crate::verif::RPtr,
 
     // The last snapshot of ClockErrorBound taken. This acts as a cache to avoid waiting for the
     // writer to complete an update and allow to share a reference to this memory location
@@ -177,6 +188,8 @@ impl ShmReader {
         // SAFETY: segment size has been checked to ensure `cursor` move leads to a valid cast
         cursor = unsafe { cursor.add(size_of::<ShmHeader>()) };
         let ceb_shm = unsafe { ptr::addr_of!(*cursor.cast::<ClockErrorBound>()) };
+        #[cfg(feature = "verif-hooks")]
+        let ceb_shm = crate::verif::RPtr(ceb_shm);
 
         Ok(ShmReader {
             _marker: std::marker::PhantomData,
@@ -187,6 +200,32 @@ impl ShmReader {
             snapshot_ceb: ClockErrorBound::default(),
             snapshot_gen: 0,
         })
+    }
+
+    /// Build a reader over a segment held in memory owned by the caller (verification only).
+    ///
+    /// No validation of the header is performed and nothing is unmapped on drop.
+    ///
+    /// # Safety
+    /// `segment` must be 8 bytes aligned, valid for reads of a ShmHeader followed by a
+    /// ClockErrorBound, and outlive the reader.
+    #[cfg(feature = "verif-hooks")]
+    pub unsafe fn verif_from_raw(segment: *const u8) -> ShmReader {
+        let version = ptr::addr_of!((*segment.cast::<ShmHeader>()).version);
+        let generation = ptr::addr_of!((*segment.cast::<ShmHeader>()).generation);
+        let ceb_shm = segment.add(size_of::<ShmHeader>()).cast::<ClockErrorBound>();
+        ShmReader {
+            _marker: std::marker::PhantomData,
+            _guard: MmapGuard {
+                segment: ptr::null_mut(),
+                segsize: 0,
+            },
+            version,
+            generation,
+            ceb_shm: crate::verif::RPtr(ceb_shm),
+            snapshot_ceb: ClockErrorBound::default(),
+            snapshot_gen: 0,
+        }
     }
 
     /// Return a consistent snapshot of the shared memory segment.
